@@ -82,4 +82,13 @@ CLAIMS.update({
               'length independently of history length on long repetitive histories (profile repeat) on the real store.'),
         note=COMMON_NOTE + ' Orphaned entries whose reference was replaced by a reply with a different Vary are bounded by the distinct variants but not collected; the monitor bound allows them.'),
 })
+CLAIMS.update({
+    'C09': dict(
+        text=('Theorems C09_decision (fresh by more than a second under the documented lifetime and nothing demanding validation => the hit decision '
+              'is to serve; for all header values and instants), C09_match_complete (equal normalised selecting fields => the stored reference matches), '
+              'C09_run_hit (index lists a selected reference, entry present, decision serve => no origin call, store unchanged, that entry returned), '
+              'C09_key_respellings. The run drives histories with respelled URIs and selecting headers on the memory backend and on the file-system '
+              'backend plain, encrypted and reopened between every two requests; monitor mon_C09 demands a store answer whenever the spec premises hold.'),
+        note=COMMON_NOTE + ' URI-key completeness is shown on concrete respellings and by the run, not as a general theorem; C14 covers the backends as maps.'),
+})
 NOT_YET = {}
